@@ -94,3 +94,113 @@ Print Assumptions C17_fractions_up_to_out_row_renaming.
 Print Assumptions C17_assets_order_independent.
 Print Assumptions C17_run_config_order_independent.
 Print Assumptions C17_yearly_lines_order_independent.
+
+(** * (1b) Tables reordered within a sheet -- PROVED (supersedes the remark under (1) above that the order of the tables is
+    only corresponded).  Vocabulary: Model/Render.v ([block]: one table with the blank rows before it, keyword / header / data /
+    TABLE END rows; [render_sheet]; [wf_blocks]; [expected]), Model/TableOrderSpec.v:
+    [same_tables bl1 bl2]: the two sheets hold the same tables -- same type, same typed rows in the same order -- in any order
+    of the tables, with any blank rows between them, any junk in unmapped columns, any row widths;
+    [renamed_by rho p1 p2]: the three transaction sets of [p2] are those of [p1] with every row id [r] replaced by [rho r], the
+    artificial-id counter is the same, the table row id -> (unique_id, notes) holds the renamed entries (as a permutation: its
+    order follows the sheet), and [rho] is a [table_renaming]: it fixes every id <= 0 (the artificial ids of the fee
+    disposals), sends sheet rows to sheet rows, keeps the order of the rows within each table, identifies no two rows;
+    [same_up_to_rows p1 p2] := exists rho, renamed_by rho p1 p2;
+    [txs_of_parsed]: duplicate-id check, IN set not empty, the three sets sorted by instant -- the second half of [Pipeline.build]
+    ([C17_build_is_constructors_then_sets]); [rn_txs], [rn_txn], [rn_frac]: the renaming applied to transaction sets, taxable events,
+    fractions (event id and lot id).
+    Artificial fee ids: they are allocated counting down from the counter in sheet order of the acquisitions with a crypto fee;
+    moving whole tables does not change the order inside the IN table, so corresponding fee disposals get the SAME id
+    ([C17_same_up_to_rows_forget], last clause); needed: the counter starts at or below 1 (it starts at 0 and only decreases), so
+    that artificial ids are <= 0 and cannot collide with sheet rows.
+    The property text demands pairwise distinct timestamps for reordering; for reordering whole TABLES the theorems need no such
+    hypothesis: the order inside each table is unchanged, and the event list is built table by table (in, out, intra) whatever
+    the order in the sheet. *)
+From RP2V Require Import Model.Render Model.TableOrderSpec Proofs.ParserSpec Proofs.ParserExample Proofs.TableOrder Proofs.TableOrderExample.
+
+(** the parser: the two rendered sheets parse, and their results are equal up to row ids *)
+Theorem C17_table_order_parse_invariant : forall cfg asset ai counter bl1 bl2 tr1 tr2 p1,
+  str_index asset (pc_assets cfg) 0 = Some ai ->
+  wf_blocks cfg asset 1 bl1 -> wf_blocks cfg asset 1 bl2 ->
+  NoDup (map (fun b => tab_code (b_tab b)) bl1) -> same_tables bl1 bl2 ->
+  (forall r, In r tr1 -> is_blank_row r = true) -> (forall r, In r tr2 -> is_blank_row r = true) ->
+  counter <= 1 -> expected cfg counter bl1 = Ok p1 -> pa_ins p1 <> [] ->
+  parse_sheet cfg asset counter (render_sheet cfg asset bl1 tr1) = Ok p1 /\
+  exists p2, parse_sheet cfg asset counter (render_sheet cfg asset bl2 tr2) = Ok p2 /\ same_up_to_rows p1 p2.
+Proof. exact table_order_parse_invariant. Qed.
+
+(** "up to row ids": equal after forgetting the ids ([rn_* (fun _ => 0)]), same counter, and the artificial fee disposals
+    (ids <= 0) coincide including their ids *)
+Theorem C17_same_up_to_rows_forget : forall p1 p2, same_up_to_rows p1 p2 ->
+  map (rn_in (fun _ => 0)) (pa_ins p1) = map (rn_in (fun _ => 0)) (pa_ins p2) /\
+  map (rn_out (fun _ => 0)) (pa_outs p1) = map (rn_out (fun _ => 0)) (pa_outs p2) /\
+  map (rn_intra (fun _ => 0)) (pa_intras p1) = map (rn_intra (fun _ => 0)) (pa_intras p2) /\
+  pa_counter p1 = pa_counter p2 /\
+  filter (fun o => o_row o <=? 0) (pa_outs p1) = filter (fun o => o_row o <=? 0) (pa_outs p2).
+Proof. exact same_up_to_rows_forget. Qed.
+
+(** the matcher, as the code has it, under a renaming of the row ids of the LOTS that keeps their order (and the dummy id 0):
+    same pairing, same amounts, the fractions name the renamed lots -- for every input, well-formed or not *)
+Theorem C17_matcher_lot_renaming : forall (rho : Z -> Z) ar lots, rho 0 = 0 -> mono_on rho (0 :: map i_row lots) ->
+  forall sched evs,
+  run_matcher ar (map (rn_in rho) lots) sched evs = rn_res (map (rn_lot rho)) (run_matcher ar lots sched evs).
+Proof. exact matcher_lot_renaming. Qed.
+
+(** the pipeline under a renaming of ALL row ids (order-preserving on the acquisitions, injective on the taxable events) *)
+Theorem C17_pipeline_row_renaming : forall (rho : Z -> Z) t, rho 0 = 0 -> mono_on rho (0 :: map i_row (t_ins t)) ->
+  inj_on rho (map t_row (taxable_unsorted t)) ->
+  taxable_events (rn_txs rho t) = rn_res (map (rn_txn rho)) (taxable_events t) /\
+  forall b sched, fractions_of b sched (rn_txs rho t) = rn_res (map (rn_frac rho)) (fractions_of b sched t).
+Proof. exact pipeline_row_renaming. Qed.
+
+Theorem C17_build_is_constructors_then_sets : forall h, build h =
+  match map_result mk_in (h_ins h) with
+  | Err e => Err e
+  | Ok ins => match map_result mk_out (h_outs h) with
+              | Err e => Err e
+              | Ok outs => match map_result mk_intra (h_intras h) with Err e => Err e | Ok intras => txs_of_lists ins outs intras end
+              end
+  end.
+Proof. exact build_txs_of_lists. Qed.
+
+(** MAIN STATEMENT, composed: two sheets holding the same tables in different orders give -- parser, time-sorted sets, taxable
+    events, gain/loss fractions, under every schedule, success and failure alike -- the same results up to ONE renaming of
+    sheet rows *)
+Theorem C17_table_order_pipeline_invariant : forall cfg asset ai counter bl1 bl2 tr1 tr2 p1,
+  str_index asset (pc_assets cfg) 0 = Some ai ->
+  wf_blocks cfg asset 1 bl1 -> wf_blocks cfg asset 1 bl2 ->
+  NoDup (map (fun b => tab_code (b_tab b)) bl1) -> same_tables bl1 bl2 ->
+  (forall r, In r tr1 -> is_blank_row r = true) -> (forall r, In r tr2 -> is_blank_row r = true) ->
+  counter <= 1 -> expected cfg counter bl1 = Ok p1 -> pa_ins p1 <> [] ->
+  parse_sheet cfg asset counter (render_sheet cfg asset bl1 tr1) = Ok p1 /\
+  exists p2 rho,
+    parse_sheet cfg asset counter (render_sheet cfg asset bl2 tr2) = Ok p2 /\ renamed_by rho p1 p2 /\
+    txs_of_parsed p2 = rn_res (rn_txs rho) (txs_of_parsed p1) /\
+    forall t1, txs_of_parsed p1 = Ok t1 ->
+      taxable_events (rn_txs rho t1) = rn_res (map (rn_txn rho)) (taxable_events t1) /\
+      forall b sched, fractions_of b sched (rn_txs rho t1) = rn_res (map (rn_frac rho)) (fractions_of b sched t1).
+Proof. exact table_order_pipeline_invariant. Qed.
+
+(** non-vacuity (Proofs/TableOrderExample.v): the sheet of Proofs/ParserExample.v (OUT, IN, INTRA; an acquisition with a crypto
+    fee) and the same tables as IN, INTRA, OUT with other blank rows, keyword spelling, junk and widths: IN rows 8, 9 become 5, 6,
+    the sale 4 becomes 17, the transfer 15 becomes 10, the artificial fee disposal keeps the id -1; the HIFO fractions are the
+    same under that renaming *)
+Theorem C17_table_order_nonvacuous :
+  expected ex_cfg 0 ex_blocks = Ok ex_p1 /\ expected ex_cfg 0 ex_blocks2 = Ok ex_p2 /\
+  map i_row (pa_ins ex_p1) = [8; 9] /\ map o_row (pa_outs ex_p1) = [4; -1] /\ map x_row (pa_intras ex_p1) = [15] /\
+  map i_row (pa_ins ex_p2) = [5; 6] /\ map o_row (pa_outs ex_p2) = [17; -1] /\ map x_row (pa_intras ex_p2) = [10] /\
+  exists rho,
+    parse_sheet ex_cfg ex_asset 0 (render_sheet ex_cfg ex_asset ex_blocks [[CEmpty]]) = Ok ex_p1 /\
+    parse_sheet ex_cfg ex_asset 0 (render_sheet ex_cfg ex_asset ex_blocks2 []) = Ok ex_p2 /\
+    renamed_by rho ex_p1 ex_p2 /\ txs_of_parsed ex_p2 = Ok (rn_txs rho ex_t1) /\
+    fractions_of gen_always_repush ex_sched (rn_txs rho ex_t1) = Ok (map (rn_frac rho) ex_fs1) /\
+    map (fun f => (f_ev f, f_lot f)) ex_fs1 = [(9, None); (4, Some 8); (-1, Some 8)] /\
+    map (fun f => (f_ev f, f_lot f)) (map (rn_frac rho) ex_fs1) = [(6, None); (17, Some 5); (-1, Some 5)].
+Proof. exact table_order_nonvacuous. Qed.
+
+Print Assumptions C17_table_order_parse_invariant.
+Print Assumptions C17_same_up_to_rows_forget.
+Print Assumptions C17_matcher_lot_renaming.
+Print Assumptions C17_pipeline_row_renaming.
+Print Assumptions C17_build_is_constructors_then_sets.
+Print Assumptions C17_table_order_pipeline_invariant.
+Print Assumptions C17_table_order_nonvacuous.
